@@ -229,6 +229,8 @@ func (u *upstream) getClient(addr string) (*client, error) {
 	c, err := u.createClient(addr)
 	call.res, call.err = c, err
 	close(call.done)
+	// the call is finished, later lookups must not be answered with its result.
+	u.createClientCalls.Delete(addr)
 	return c, err
 }
 
